@@ -40,7 +40,8 @@ class C03(Prop):
                   "matched; a covered rule stays covered and acts on every later token). SCOPE of 'no consumer observes "
                   "tokens after a termination token': NOT a theorem. Proved only: a token seen after a termination token "
                   "entered the port's history after it (C03_after_term_partial), hence nothing follows a termination "
-                  "token on a plain port whose producers put nothing after it (C03_term_last_partial). For an "
+                  "token on a plain or filter port whose producers put nothing after it (C03_term_last_partial, "
+                  "C03_term_last_filter_partial). For an "
                   "inter-workflow port the clause is REFUTED (C03_inter_term_then_token_refuted): a complete TERMINATE "
                   "rule re-fires on every later token, so the port ITSELF puts tokens and terminations after a "
                   "termination token on the boundary target although no producer ever put a termination token; the "
@@ -62,7 +63,7 @@ class C03(Prop):
                "are not verified, only exercised",)
     ASSUMPTIONS = ("a consumer's outstanding gets are served in FIFO order by asyncio.Queue",
                    "boundary targets other than the port itself are plain Ports")
-    MAX_WORKERS = 8
+    MAX_WORKERS = 4
     COQ_SHARD = 300
 
     # ---------------------------------------------------------------- generation
